@@ -35,7 +35,7 @@ def phase_laws(ctx, phase):
 # ------------------------------------------------------------------------------------------
 # C13: overload resolution (engine T)
 
-def _code_outcomes(max_arity, reverse_sigs=False):
+def _code_outcomes(max_arity, reverse_sigs=False, only=None):
     from . import catalog as C
 
     if reverse_sigs:
@@ -45,10 +45,10 @@ def _code_outcomes(max_arity, reverse_sigs=False):
             o.trie = SignatureTrie()
             for sig in reversed(o.signatures):
                 o.trie.insert(sig.types, sig.return_type, sig.is_vararg)
-    return C.enumerate_code(max_arity)
+    return C.enumerate_code(max_arity, only)
 
 
-def _colfn_outcomes(max_arity):
+def _colfn_outcomes(max_arity, only=None):
     """ColFn construction outcome for every tuple (the user-visible side of type checking)."""
     import itertools
     import uuid as _uuid
@@ -68,6 +68,8 @@ def _colfn_outcomes(max_arity):
 
     out = {}
     for n, o in C.operators():
+        if only and n not in only:
+            continue
         ar = set()
         for s in o.signatures:
             k = len(s.types)
@@ -85,14 +87,15 @@ def _colfn_outcomes(max_arity):
 
 def _subproc_outcomes(args):
     """run in a fresh interpreter with another PYTHONHASHSEED / reversed declaration order"""
-    max_arity, hashseed, reverse = args
+    max_arity, hashseed, reverse = args[:3]
+    only = args[3] if len(args) > 3 else None
     import json
     import subprocess
     import sys
 
     code = ("import sys, json; sys.path.insert(0, %r); from harness import phases as P; "
-            "o = P._code_outcomes(%d, %r); print(json.dumps([[k[0], list(k[1]), list(v)] for k, v in o.items()]))"
-            % (os.path.dirname(os.path.dirname(os.path.abspath(__file__))), max_arity, reverse))
+            "o = P._code_outcomes(%d, %r, %r); print(json.dumps([[k[0], list(k[1]), list(v)] for k, v in o.items()]))"
+            % (os.path.dirname(os.path.dirname(os.path.abspath(__file__))), max_arity, reverse, only))
     env = dict(os.environ, PYTHONHASHSEED=str(hashseed))
     p = subprocess.run([sys.executable, "-c", code], env=env, capture_output=True, text=True, timeout=3600)
     if p.returncode != 0:
@@ -106,15 +109,16 @@ def phase_resolve(ctx, phase):
     from . import catalog as C
 
     max_arity = phase.get("max_arity", 2)
+    only = phase.get("ops")         # restrict to these operators (a deeper arity for the few operators whose signatures need it)
     d = tlc.prepare(f"{ctx.prop}-resolve-{os.getpid()}", ctx.seed)
     text, meta = C.catalog_module()
     with open(os.path.join(d, "Catalog.tla"), "w") as f:
         f.write(text)
     nops = len(meta["ops"])
     with open(os.path.join(d, "Run.tla"), "w") as f:
-        f.write("---- MODULE Run ----\nEXTENDS MC_Resolve\n====\n")
+        f.write("---- MODULE Run ----\nEXTENDS MC_Resolve\nOnlyOpsDef == {" + ", ".join(tlc.tla_lit(x) for x in (only or [])) + "}\n====\n")
     with open(os.path.join(d, "Run.cfg"), "w") as f:
-        f.write(f"CONSTANTS\n MaxArity = {max_arity}\n OpLo = 1\n OpHi = {nops}\nINIT Init\nNEXT Next\nCHECK_DEADLOCK FALSE\n")
+        f.write(f"CONSTANTS\n MaxArity = {max_arity}\n OpLo = 1\n OpHi = {nops}\n OnlyOps <- OnlyOpsDef\nINIT Init\nNEXT Next\nCHECK_DEADLOCK FALSE\n")
     spec = {}
 
     def on_json(o):
@@ -127,8 +131,8 @@ def phase_resolve(ctx, phase):
     ctx.tlc_distinct += res["distinct"]
     ctx.tlc_runs.append(dict(profile=f"resolve(arity<={max_arity})", states=res["states"], distinct=res["distinct"],
                              behaviours=len(spec), wall=round(res["wall"], 1), mode="bfs"))
-    code = _code_outcomes(max_arity)
-    colfn = _colfn_outcomes(min(max_arity, 2))
+    code = _code_outcomes(max_arity, only=only)
+    colfn = _colfn_outcomes(max_arity if only else min(max_arity, 2), only)
     ctx.behaviours += len(spec)
     ctx.replay_stats["steps_new"] = ctx.replay_stats.get("steps_new", 0) + len(code)
     # non-trivial: the tuple is accepted or ambiguous (a rejection of an unrelated type tuple is the trivial case)
@@ -178,9 +182,9 @@ def phase_resolve(ctx, phase):
     # independence of declaration order and hash order
     import concurrent.futures as cf
 
-    variants = [(max_arity, 1, False), (max_arity, 2, True), (max_arity, 3, True)]
+    variants = [(max_arity, 1, False, only), (max_arity, 2, True, only), (max_arity, 3, True, only)]
     with cf.ThreadPoolExecutor(3) as ex:
-        for (ma, hs, rev), other in zip(variants, ex.map(_subproc_outcomes, variants)):
+        for (ma, hs, rev, _o), other in zip(variants, ex.map(_subproc_outcomes, variants)):
             diff = [k for k in code if other.get(k) != code[k]]
             ctx.extra.setdefault("order_variants", []).append(dict(hashseed=hs, reversed_declaration=rev, differing=len(diff)))
             for k in diff[:50]:
@@ -289,6 +293,7 @@ def phase_impls(ctx, phase):
     impls = {"polars": PolarsImpl, "sqlite": SqliteImpl, "postgres": PostgresImpl, "mssql": MsSqlImpl}
     n = 0
     unsupported = 0
+    called = 0
     for (opn, args), out in code.items():
         if out[0] != "match":
             continue
@@ -306,6 +311,36 @@ def phase_impls(ctx, phase):
                 ctx.failures.append(dict(clause="impl-internal", backend=bk, step=0, exc=type(e).__name__, tainted=False, src=[], srcidx=0,
                                          detail=f"get_impl({opn}, {args}) on {bk} raised {type(e).__name__}: {e}",
                                          moves=[dict(v="resolve", op=opn, args=list(args))], heap_obs=[], beh=dict(op=opn, args=list(args), backend=bk)))
+            # an implementation that forgets its `return` compiles to NULL: call it on typed SQL columns (python values for the
+            # parameters declared constant); only a None result is judged - an exception here may be due to the synthetic arguments
+            if bk != "polars":
+                import datetime as _dt
+                import functools
+
+                import sqlalchemy as sqa
+                from pydiverse.transform._internal.tree import types as _types
+
+                lit = {"Int": 1, "Float": 1.5, "Decimal": 1.5, "String": "a", "Bool": True, "Date": _dt.date(2020, 1, 2), "Datetime": _dt.datetime(2020, 1, 2),
+                       "Time": _dt.time(1, 2), "Duration": _dt.timedelta(1), "NullType": None}
+                try:
+                    params = ops[opn].trie.best_match(sig)[0]
+                    argv = []
+                    for j, a in enumerate(sig):
+                        pj = params[j] if j < len(params) else params[-1]
+                        fam = C.family(a) if hasattr(C, "family") else None
+                        if _types.is_const(pj):
+                            argv.append(lit.get(type(_types.without_const(a)).__name__.rstrip("0123456789").replace("UInt", "Int"), 1))
+                        else:
+                            argv.append(sqa.column(f"x{j}", impl.sqa_type(_types.without_const(a))))
+                    r = functools.partial(f, _Impl=impl)(*argv)
+                except Exception:  # noqa: BLE001
+                    continue
+                called += 1
+                if r is None:
+                    ctx.failures.append(dict(clause="impl-internal", backend=bk, step=0, exc=None, tainted=False, src=[], srcidx=0,
+                                             detail=f"the implementation of {opn}{args} on {bk} returned None (compiles to NULL)",
+                                             moves=[dict(v="resolve", op=opn, args=list(args))], heap_obs=[], beh=dict(op=opn, args=list(args), backend=bk)))
+    ctx.replay_stats["impl_calls"] = called
     ctx.replay_stats["steps_new"] = ctx.replay_stats.get("steps_new", 0) + n
     ctx.replay_stats["nontrivial"] = ctx.replay_stats.get("nontrivial", 0) + n
     ctx.replay_stats["impl_lookups"] = n
@@ -708,6 +743,9 @@ def _run_join(rp, cex):
                            on=[dict(k="fn", op="eq", a=[dict(k="col", id=S_col_id(sl, 0)), dict(k="col", id=S_col_id(s3, a3))])])
                 moves.append(jm2)
                 joined = R.apply_move(jm2, heap, colmap)
+            if bk == "sqlite":
+                at = "build"
+                joined >> R.build_query()
             at = "export"
             res[bk] = joined >> R.export(R.pdt.Polars())
         except Exception as e:  # noqa: BLE001
@@ -747,13 +785,14 @@ def _join_decisions(args):
         model_refuses = bool(dc["needL"] or dc["needR"])
         reasons[dc["needL"] or dc["needR"] or "accepted"] = reasons.get(dc["needL"] or dc["needR"] or "accepted", 0) + 1
         s = res["sqlite"]
-        code_refuses = isinstance(s, tuple) and s[0] == "SubqueryError" and s[1] == "join"
+        code_refuses = isinstance(s, tuple) and s[0] == "SubqueryError" and s[1] == ("join2" if dc.get("how2") else "join")
         if isinstance(s, tuple) and not code_refuses:
             if s[0] == "SubqueryError":      # a preparatory step was refused: outside this comparison
                 other += 1
                 continue
-            failures.append(dict(clause="export-error", backend="sqlite", step=len(moves) - 1, tainted=False, src=[dc["left"], dc["right"]], srcidx=0,
-                                 exc=s[0], detail=f"join / union scenario raised {s[0]} at {s[1]} on SQLite", moves=moves, heap_obs=[], beh=dc))
+            for clause in ("export-error",) + (("dialect-internal",) if s[1] == "build" and s[0] != "NotSupportedError" else ()):
+                failures.append(dict(clause=clause, backend="sqlite", step=len(moves) - 1, tainted=False, src=[dc["left"], dc["right"]], srcidx=0,
+                                     exc=s[0], detail=f"join / union scenario raised {s[0]} at {s[1]} on SQLite", moves=moves, heap_obs=[], beh=dc))
             continue
         if model_refuses == code_refuses:
             agree += 1
@@ -1319,6 +1358,128 @@ def phase_argspace(ctx, phase):
     ctx.replay_stats["steps_new"] = ctx.replay_stats.get("steps_new", 0) + len(recs)
     ctx.replay_stats["nontrivial"] = ctx.replay_stats.get("nontrivial", 0) + len(recs)
     ctx.tlc_runs.append(dict(profile="arg-space", states=0, distinct=0, configurations=len(cfgs), mode="TLC enumerates configurations, then judges the recorded outcomes"))
+    return d
+
+
+def _lca_exec(cfgs):
+    """worker: type unification of every argument order on the real code: types.lca_type, CaseExpr.dtype, union of two tables"""
+    import itertools
+    import uuid as _uuid
+
+    import polars as pl
+    import pydiverse.transform as pdt
+    from pydiverse.transform import union
+    from pydiverse.transform._internal.ops.op import Ftype
+    from pydiverse.transform._internal.tree import types
+    from pydiverse.transform._internal.tree.col_expr import CaseExpr, Col
+
+    from . import catalog as C
+
+    by_tok = {C.tok(t): t for t in C.all_types()}
+
+    def outcome(f):
+        try:
+            return ["type", C.tok(types.without_const(f()))]
+        except Exception as e:  # noqa: BLE001
+            return [type(e).__name__, ""]
+
+    def col(t):
+        return Col("x", None, _uuid.uuid1(), t, Ftype.ELEMENT_WISE)
+
+    def case_type(ts):
+        cond = col(pdt.Bool())
+        vals = [col(t) for t in ts]
+        if len(vals) == 1:
+            return CaseExpr([(cond, vals[0])]).dtype()
+        return CaseExpr([(cond, v) for v in vals[:-1]], vals[-1]).dtype()
+
+    def frame(t):
+        try:
+            pt = t.to_polars()
+            df = pl.DataFrame({"x": pl.Series([], dtype=pt)})
+            tb = pdt.Table(df)
+            return tb if C.tok(types.without_const(tb.x.dtype())) == C.tok(t) else None
+        except Exception:  # noqa: BLE001
+            return None
+
+    def uniq(xs):
+        out = []
+        for v in xs:
+            if v not in out:
+                out.append(v)
+        return out
+
+    recs = []
+    null = by_tok["NullType"]
+    for c in cfgs:
+        ts = [by_tok[k] for k in c["ts"]]
+        perms = uniq(list(itertools.permutations(ts)))
+        rec = dict(c=c)
+        rec["outs"] = uniq([outcome(lambda p=p: types.lca_type(list(p))) for p in perms])
+        rec["withnull"] = uniq([outcome(lambda p=p, i=i: types.lca_type(list(p[:i]) + [null] + list(p[i:]))) for p in perms for i in range(len(p) + 1)])
+        rec["cases"] = uniq([outcome(lambda p=p: case_type(p)) for p in perms])
+        rec["unions"] = []
+        if len(ts) == 2:
+            fl, fr = frame(ts[0]), frame(ts[1])
+            if fl is not None and fr is not None:
+                rec["unions"] = uniq([outcome(lambda a=a, b=b: (a >> union(b)).x.dtype()) for a, b in ((fl, fr), (fr, fl))])
+        recs.append(rec)
+    return recs
+
+
+def phase_lca(ctx, phase):
+    """type unification over every multiset of the type universe (MC_Lca.tla): TLC enumerates, the code unifies every order, TLC judges"""
+    from . import catalog as C
+
+    maxn = phase.get("max_n", 2)
+    d = tlc.prepare(f"{ctx.prop}-lca-{os.getpid()}", ctx.seed)
+    text, _meta = C.catalog_module()
+    with open(os.path.join(d, "Catalog.tla"), "w") as f:
+        f.write(text)
+
+    def write(mode):
+        with open(os.path.join(d, "Run.tla"), "w") as f:
+            f.write("---- MODULE Run ----\nEXTENDS MC_Lca\n====\n")
+        with open(os.path.join(d, "Run.cfg"), "w") as f:
+            f.write(f'CONSTANTS\n  Mode = "{mode}"\n  MaxN = {maxn}\nINIT Init\nNEXT Next\nCHECK_DEADLOCK FALSE\n')
+
+    write("gen")
+    cfgs = []
+    tlc.run(d, workers=1, timeout=900, on_json=cfgs.append)
+    n = 16
+    futs = [ctx.get_pool().submit(_lca_exec, cfgs[w::n]) for w in range(n)]
+    recs = [r for fu in futs for r in fu.result()]
+    path = os.path.join(d, "lca.ndjson")
+    # binding demonstration: a record whose outcome is replaced by a type no argument converts to must be rejected
+    canary = next((dict(r, outs=[["type", "Duration"]], withnull=[["type", "Duration"]], cases=[], unions=[]) for r in recs
+                   if r["outs"] == [["type", "Int"]]), None)
+    with open(path, "w") as f:
+        for r in recs + ([canary] if canary else []):
+            f.write(json.dumps(r) + "\n")
+    write("check")
+    verdicts = []
+    tlc.run(d, workers=1, timeout=1800, on_json=verdicts.append, extra_env=dict(VERIF_LCA=path))
+    if canary:
+        cv = [v for v in verdicts if v["i"] == len(recs) + 1]
+        if not cv or cv[0]["verdict"] == "ok":
+            raise tlc.TlcError("MC_Lca canary: an outcome that is no upper bound of its arguments was judged ok")
+        verdicts = [v for v in verdicts if v["i"] <= len(recs)]
+    if len(verdicts) != len(recs):
+        raise tlc.TlcError(f"MC_Lca judged {len(verdicts)} of {len(recs)} records")
+    counts = {}
+    for v in verdicts:
+        counts[v["verdict"]] = counts.get(v["verdict"], 0) + 1
+        if v["verdict"] != "ok":
+            r = recs[v["i"] - 1]
+            exc = next((o[0] for o in r["outs"] + r["withnull"] + r["cases"] + r["unions"] if o[0] not in ("type", "DataTypeError", "TypeError")), None)
+            ctx.failures.append(dict(clause="lca-internal" if v["verdict"] == "internal-error" else "lca", backend="code", step=0, tainted=False, src=["types"], srcidx=0, exc=exc,
+                                     detail=f"type unification of {r['c']['ts']}: {v['verdict']}: lca_type {r['outs']}, with null {r['withnull']}, case {r['cases']}, union {r['unions']}",
+                                     moves=[dict(v="lca", args=r["c"]["ts"])], heap_obs=[], beh=r))
+    ctx.extra.setdefault("lca", {})[f"max_n={maxn}"] = dict(multisets=len(cfgs), verdicts=counts, canary_rejected=bool(canary))
+    ctx.behaviours += len(recs)
+    ctx.replay_stats["steps_new"] = ctx.replay_stats.get("steps_new", 0) + len(recs)
+    ctx.replay_stats["nontrivial"] = ctx.replay_stats.get("nontrivial", 0) + len(recs)
+    ctx.tlc_runs.append(dict(profile="lca", states=0, distinct=0, configurations=len(cfgs), mode="TLC enumerates argument multisets, then judges the recorded outcomes"))
     return d
 
 
